@@ -6,6 +6,7 @@ open Cgreen
 def parseAct (tok : String) : Option Act :=
   match tok with
   | "P" => some (.check true)
+  | "QI" => some (.check true)      -- the test checks that it finds SIGINT in its default disposition
   | "F" => some (.check false)
   | "S" => some .skip
   | "MP" => some (.decl true)
